@@ -22,7 +22,7 @@ RULE = ("queries x documents with member names that are digits-only, signed-numb
 TRUSTED = ["Lean 4.33 kernel; standard axioms only", "models tied to the implementation by this differential run"]
 ASSUMPTIONS = ["documents are trees (no aliasing)", "`$`-rooted queries without the keys selector"]
 
-KEYS = ["1", "-1", "+1", "１", "~", "/", "", "é", "a/b", "-", "0", "01", "a", "b", "~0", "~1", "#a", "1_0", " 1", "10", "😀", "a\\"]
+KEYS = ["-0", "-00", "0", "1", "-1", "+1", "１", "~", "/", "", "é", "a/b", "-", "0", "01", "a", "b", "~0", "~1", "#a", "1_0", " 1", "10", "😀", "a\\"]
 
 
 def docs(ctx):
